@@ -14,6 +14,16 @@
        Poisson(o)     ex.poisson.Poisson(D, L, N, order = o)(u)              u_p -> u_p / Sum p_d^2 (o = 2), - u_p / Sum p_d^4 (o = 4: the documented "without spatial mixing" operator), mean removed
        Oddball        irfft( rfft(u) * oddball_filter_mask )                 drops every mode with a Nyquist component (even grids)
        AddMode(b)     u + a real basis function (keeps the sessions from dying out)
+       Advect(v)      ex.stepper.Advection(D, L, N, dt, velocity = v pi / (2 dt))(u)   a shift by quarter periods per axis: the multiplier (-i)^(v.k) is a
+                                                                             Gaussian integer, so the exact linear step stays inside Q(i)
+       AdvectN(v, n, how)  the same stepper applied n times through ex.repeat / ex.rollout (physical space between the steps) or as
+                                                                             RepeatedStepper(stepper, n) (n sub-steps in Fourier space, no transform in between):
+                                                                             the two differ exactly on Nyquist content, which the machine reproduces
+   Observations (the state is unchanged, `last.obs` is the predicted return value):
+       Interp(q)      FourierInterpolator(u, domain_extent = L)(L q / 4)     Sum_p c[p] i^(p.q); needs a Nyquist-free state unless the point is a grid point
+       Spectrum       ex.get_spectrum(u, power = True)                       bin b collects 1/2 |c[p]|^2 of the modes with (2b-1)^2 <= 4 |p|^2 < (2b+1)^2, b <= N/2
+       Metric         MSE, fourier_MSE (with a band), H1_MSE                 Sum |c[p]|^2 (times L^D), Sum_{low <= max|p_d| <= high}, Sum (1 + |p|^2) |c[p]|^2
+       Coefs          ex.spectral.get_fourier_coefficients(u, round = None)  half-spectrum over the coef_extraction scaling
    The variable `last` names the action taken; TLC's -simulate writes behaviours that are replayed call by call into the library with the
    whole state compared after every action.  Invariants: the state is always a real field of the current grid; Apply / RK results are
    confined to the retained band; Resample preserves the mean; Project yields a divergence-free field. *)
@@ -25,8 +35,9 @@ CONSTANTS Kinds,        \* subset of {"s1", "s2", "v2", "s3"}: scalar 1D, scalar
           MaxRK,        \* largest Runge-Kutta order used in sessions (the wiring of orders 3, 4 is C02's business)
           Seeds,        \* number of distinct initial mode pairs per grid (the initial state is drawn from a small deterministic family)
           MaxLen
-VARIABLES D, N, st, last, nl, len
-vars == <<D, N, st, last, nl, len>>
+VARIABLES D, N, st, last, nl, len,
+          fam      \* the family of operations the next step is taken from ("none": to be chosen); see Next
+vars == <<D, N, st, last, nl, len, fam>>
 
 w == QOne
 Bq == QOne
@@ -92,6 +103,34 @@ ResampleH(M, h) ==
     IN  IF N > M /\ M % 2 = 0 THEN [s \in {t \in DOMAIN h3 : Oddball(D, M, t)} |-> h3[s]] ELSE h3
 ResampleF(c, M) == IF M = N THEN c ELSE CanonN(D, M, ResampleH(M, Half(c)))
 
+\* ---------------------------------------------------------------- exact linear steps: advection over quarter periods
+NegIPow(n) == LET r == n % 4 IN IF r = 0 THEN COne ELSE IF r = 1 THEN Cx(QZero, QInt(-1)) ELSE IF r = 2 THEN CInt(-1) ELSE CI
+IPowI(n)   == LET r == n % 4 IN IF r = 0 THEN COne ELSE IF r = 1 THEN CI ELSE IF r = 2 THEN CInt(-1) ELSE Cx(QZero, QInt(-1))
+\* exp(dt lambda(k)) for lambda = - i c.k with c dt = v pi / 2 (w = 1): (-i)^(v.k) at the stored wavenumber (the Nyquist wavenumber of the
+\* halved axis is stored as + N/2, on the other axes as - N/2: the multiplier follows the stored value, as the library's operator does)
+ShiftSym(v, s) == NegIPow(VDot(v, K(D, N, s)))
+AdvectH(h, v, n) == HMul(h, LAMBDA s : CPow(ShiftSym(v, s), n))
+AdvectF(c, v) == Canon(AdvectH(Half(c), v, 1))
+RECURSIVE AdvectRep(_, _, _)
+AdvectRep(c, v, n) == IF n = 0 THEN c ELSE AdvectRep(AdvectF(c, v), v, n - 1)        \* n calls, a real field in between
+AdvectSub(c, v, n) == Canon(AdvectH(Half(c), v, n))                                   \* n sub-steps in Fourier space
+ShiftVecs == IF D = 1 THEN {<<1>>, <<2>>, <<3>>} ELSE IF D = 2 THEN {<<1, 0>>, <<0, 3>>, <<1, 1>>, <<2, 1>>, <<3, 2>>} ELSE {<<1, 0, 0>>, <<0, 1, 2>>, <<3, 2, 1>>}
+\* norms square the denominators: they are only formed on states with small rationals (TLC's integers are 32 bit)
+SmallQ(q) == Abs(q[1]) <= 60 /\ q[2] <= 60
+Small(U) == \A c \in 1..Len(U) : \A p \in DOMAIN U[c] : SmallQ(U[c][p].re) /\ SmallQ(U[c][p].im)
+MeanSqC(U) == [c \in 1..Len(U) |-> QSum(DOMAIN U[c], LAMBDA p : CAbs2(U[c][p]))]       \* per channel: the root-type metrics add the roots of the channels
+MeanSq(U) == QSumSeq(MeanSqC(U))
+
+\* ---------------------------------------------------------------- observations
+InterpAt(c, q) == CSum(DOMAIN c, LAMBDA p : CMul(c[p], IPowI(VDot(p, q))))
+QueryPts == IF D = 1 THEN {<<-3>>, <<1>>, <<2>>, <<5>>} ELSE IF D = 2 THEN {<<1, 0>>, <<-3, 2>>, <<5, 1>>, <<2, 2>>, <<3, -1>>} ELSE {<<1, 2, 3>>, <<-1, 5, 0>>, <<2, 2, 2>>}
+BinP(p) == LET q == 4 * VSq(p) IN CHOOSE b \in 0..(2 * N) : (b = 0 \/ (2*b-1)*(2*b-1) <= q) /\ q < (2*b+1)*(2*b+1)
+SpecOf(c) == [b \in 1..((N \div 2) + 1) |-> QSum({p \in DOMAIN c : BinP(p) = b - 1}, LAMBDA p : QMul(QHalf, CAbs2(c[p])))]
+InBand(p, lo, hi) == VMaxAbs(p) >= lo /\ VMaxAbs(p) <= hi
+BandSq(U, lo, hi) == QSumSeq([c \in 1..Len(U) |-> QSum({p \in DOMAIN U[c] : InBand(p, lo, hi)}, LAMBDA p : CAbs2(U[c][p]))])
+GradSq(U) == QSumSeq([c \in 1..Len(U) |-> QSum(DOMAIN U[c], LAMBDA p : QMul(QInt(VSq(p)), CAbs2(U[c][p])))])
+CoefOf(c) == LET h == Half(c) IN [s \in DOMAIN h |-> CScale(<<DenCoef(D, N, s), IPow(N, D)>>, h[s])]
+
 \* ---------------------------------------------------------------- initial states and actions
 Lo(n) == -(n \div 2)
 Hi(n) == (n - 1) \div 2
@@ -110,29 +149,55 @@ Init == /\ \E k \in Kinds, e \in Sizes :
                         f == FAdd(BasisOn(D, N, p, tr), FScale(CReal(a), BasisOn(D, N, q, "cos")))
                         g == FAdd(BasisOn(D, N, q, tr), FScale(CReal(a), BasisOn(D, N, p, "sin")))
                     IN  st = IF k = "v2" THEN <<f, g>> ELSE <<f>>
-        /\ last = [op |-> "init"] /\ nl = 0 /\ len = 0
+        /\ last = [op |-> "init"] /\ nl = 0 /\ len = 0 /\ fam = "none"
 
-Step(newst, lab, cost) == /\ st' = newst /\ last' = lab /\ nl' = nl + cost /\ len' = len + 1 /\ UNCHANGED <<D, N>>
+Step(newst, lab, cost) == /\ st' = newst /\ last' = lab /\ nl' = nl + cost /\ len' = len + 1 /\ fam' = "none" /\ UNCHANGED <<D, N>>
 Derive == \E d \in 1..D, m \in 1..3 : ~IsVec /\ Step(MapCh(LAMBDA c : DeriveF(c, d, m)), [op |-> "derive", d |-> d, m |-> m], 0)
 Filter == \E cut \in 0..(N \div 2) : Step(MapCh(LAMBDA c : FilterF(c, cut)), [op |-> "filter", cut |-> cut], 0)
-\* `rep` only multiplies the weight of an action in TLC's uniform random choice among successor states
-Apply  == \E t \in Terms, rep \in 1..2 : nl + 1 <= MaxNl /\ Step(NOf(t, st), [op |-> "apply", term |-> t, rep |-> rep], 1)
-RK     == \E t \in Terms, p \in 1..MaxRK : nl + p <= MaxNl /\ Step(RKF(t, p, st), [op |-> "rk", term |-> t, p |-> p], p)
+Apply  == \E t \in Terms : nl + 1 <= MaxNl /\ Step(NOf(t, st), [op |-> "apply", term |-> t], 1)
+\* via = "stepper": the same step through a public stepper class whose linear operator vanishes (Burgers with zero diffusivity, ...)
+RK     == \E t \in Terms, p \in 1..MaxRK, via \in {"etdrk", "stepper"} : nl + p <= MaxNl /\ Step(RKF(t, p, st), [op |-> "rk", term |-> t, p |-> p, via |-> via], p)
 Resample == \E e \in Sizes : /\ e \div 1000 = D /\ e % 1000 # N
                              /\ st' = [c \in 1..Len(st) |-> ResampleF(st[c], e % 1000)]
-                             /\ N' = e % 1000 /\ \E rep \in 1..3 : last' = [op |-> "resample", M |-> e % 1000, rep |-> rep]
-                             /\ len' = len + 1 /\ UNCHANGED <<D, nl>>
-Project == IsVec /\ (\A c \in 1..Len(st) : \A p \in DOMAIN st[c] : 2 * VMaxAbs(p) < N) /\ \E rep \in 1..6 : Step(Leray(D, w, st), [op |-> "leray", rep |-> rep], 0)
+                             /\ N' = e % 1000 /\ last' = [op |-> "resample", M |-> e % 1000]
+                             /\ len' = len + 1 /\ fam' = "none" /\ UNCHANGED <<D, nl>>
+Project == IsVec /\ (\A c \in 1..Len(st) : \A p \in DOMAIN st[c] : 2 * VMaxAbs(p) < N) /\ Step(Leray(D, w, st), [op |-> "leray"], 0)
 NyqFree == \A c \in 1..Len(st) : \A p \in DOMAIN st[c] : 2 * VMaxAbs(p) < N
-Incomp  == IsVec /\ NyqFree /\ \E rep \in 1..3 : Step(Leray(D, w, st), [op |-> "incomp", rep |-> rep], 0)
+Incomp  == IsVec /\ NyqFree /\ Step(Leray(D, w, st), [op |-> "incomp"], 0)
 \* the quartic symbol puts fourth powers into the denominators: it draws on the same budget as the nonlinear evaluations (32-bit rationals)
-Poisson == \E o \in {2, 4}, rep \in 1..2 : LET cost == IF o = 4 THEN 1 ELSE 0 IN
-               nl + cost <= MaxNl /\ Step(MapCh(LAMBDA c : PoissonF(c, o)), [op |-> "poisson", o |-> o, rep |-> rep], cost)
+Poisson == \E o \in {2, 4} : LET cost == IF o = 4 THEN 1 ELSE 0 IN
+               nl + cost <= MaxNl /\ Step(MapCh(LAMBDA c : PoissonF(c, o)), [op |-> "poisson", o |-> o], cost)
 OddballA == N % 2 = 0 /\ Step(MapCh(OddballF), [op |-> "oddball"], 0)
 AddMode == \E p \in {NthMode(D, N, i) : i \in 1..3}, tr \in {"cos", "sin"}, ch \in 1..Len(st) :
               Step([c \in 1..Len(st) |-> IF c = ch THEN FAdd(st[c], BasisOn(D, N, p, tr)) ELSE st[c]],
                    [op |-> "addmode", p |-> p, trig |-> tr, ch |-> ch], 0)
-Next == len < MaxLen /\ (Derive \/ Filter \/ Apply \/ RK \/ Resample \/ Project \/ Incomp \/ Poisson \/ OddballA \/ AddMode)
+Advect == \E v \in ShiftVecs : Step(MapCh(LAMBDA c : AdvectF(c, v)), [op |-> "advect", v |-> v], 0)
+AdvectN == \E v \in ShiftVecs, n \in 2..3, how \in {"repeat", "rollout", "substeps"} :
+              Step(MapCh(LAMBDA c : IF how = "substeps" THEN AdvectSub(c, v, n) ELSE AdvectRep(c, v, n)), [op |-> "advectn", v |-> v, n |-> n, how |-> how], 0)
+Observe(lab) == Step(st, lab, 0)
+Interp   == \E q \in QueryPts : (NyqFree \/ N % 4 = 0) /\ Observe([op |-> "interp", q |-> q, obs |-> [c \in 1..Len(st) |-> InterpAt(st[c], q)]])
+Spectrum == Small(st) /\ Observe([op |-> "spectrum", obs |-> [c \in 1..Len(st) |-> SpecOf(st[c])]])
+Metric   == \E lo \in 0..2, hi \in {1, (N \div 2) - 1, (N \div 2) + 1} : lo <= hi /\ Small(st) /\
+                Observe([op |-> "metric", lo |-> lo, hi |-> hi, obs |-> [mse |-> MeanSq(st), chan |-> MeanSqC(st), band |-> BandSq(st, lo, hi), grad |-> GradSq(st)]])
+Coefs    == Observe([op |-> "coefs", obs |-> [c \in 1..Len(st) |-> CoefOf(st[c])]])
+\* Every step is taken in two halves: first a family of operations is chosen (all enabled families equally likely in TLC's simulation mode,
+\* and only the chosen family's successors have to be computed), then one member of the family is executed.
+Families == {"advect", "advectn", "interp", "spectrum", "metric", "coefs", "derive", "filter", "apply", "rk", "resample", "leray", "incomp", "poisson", "oddball", "addmode"}
+FamGuard(f) == CASE f \in {"leray", "incomp"} -> IsVec /\ NyqFree
+                 [] f = "derive"   -> ~IsVec
+                 [] f = "apply"    -> nl + 1 <= MaxNl
+                 [] f = "rk"       -> nl + 1 <= MaxNl
+                 [] f = "oddball"  -> N % 2 = 0
+                 [] f = "interp"   -> NyqFree \/ N % 4 = 0
+                 [] f \in {"spectrum", "metric"} -> Small(st)
+                 [] OTHER -> TRUE
+FamAct(f) == CASE f = "advect" -> Advect [] f = "advectn" -> AdvectN [] f = "interp" -> Interp [] f = "spectrum" -> Spectrum [] f = "metric" -> Metric
+               [] f = "coefs" -> Coefs [] f = "derive" -> Derive [] f = "filter" -> Filter [] f = "apply" -> Apply [] f = "rk" -> RK
+               [] f = "resample" -> Resample [] f = "leray" -> Project [] f = "incomp" -> Incomp [] f = "poisson" -> Poisson
+               [] f = "oddball" -> OddballA [] f = "addmode" -> AddMode
+Pick == fam = "none" /\ len < MaxLen /\ \E f \in Families : FamGuard(f) /\ fam' = f /\ UNCHANGED <<D, N, st, last, nl, len>>
+Exec == fam # "none" /\ FamAct(fam)
+Next == Pick \/ Exec
 Spec == Init /\ [][Next]_vars
 
 \* ---------------------------------------------------------------- properties
@@ -150,10 +215,26 @@ ProjectOK == (last.op = "leray" /\ \A c \in 1..Len(st) : \A p \in DOMAIN st[c] :
                  (DOMAIN Div(st) = {} /\ Leray(D, w, st) = st)
 \* differentiation removes the mean
 \* the Poisson solution has no mean and solves the equation: - Laplace^(o/2) u = f - mean f  (checked on the pre-state through the action)
-PoissonOK == [][ (last'.op = "poisson") =>
+PoissonOK == [][ (len' = len + 1 /\ last'.op = "poisson") =>
                     \A c \in 1..Len(st) : /\ VZero(D) \notin DOMAIN st'[c]
                                            /\ \A p \in DOMAIN st[c] \ {VZero(D)} :
                                                  CScale(QInt(IF last'.o = 2 THEN VSq(p) ELSE -VQuart(p)), st'[c][p]) = st[c][p] ]_vars
 OddballOK == (last.op = "oddball") => NyqFree
 DeriveOK == (last.op = "derive") => \A c \in 1..Len(st) : VZero(D) \notin DOMAIN st[c]
+\* the interpolant of a real field is real
+InterpOK == (last.op = "interp") => \A c \in 1..Len(st) : QIsZero(last.obs[c].im)
+\* Parseval for the radial spectrum: the bins add up to half the mean square of the part inside the Nyquist sphere (everything in 1D)
+SpectrumOK == (last.op = "spectrum") => \A c \in 1..Len(st) :
+                  QSumSeq(last.obs[c]) = QSum({p \in DOMAIN st[c] : BinP(p) <= N \div 2}, LAMBDA p : QMul(QHalf, CAbs2(st[c][p])))
+\* a partition of the wavenumber range into bands adds up to the whole
+MetricOK == (last.op = "metric") => /\ QAdd(BandSq(st, 0, last.hi), BandSq(st, last.hi + 1, N)) = last.obs.mse
+                                    /\ QLe(last.obs.band, last.obs.mse)
+\* pure advection never amplifies, and preserves the norm of Nyquist-free fields; on those, sub-stepping in Fourier space equals repeated calls
+AdvectOK == [][ (len' = len + 1 /\ last'.op \in {"advect", "advectn"}) =>
+                   /\ Small(st) => QLe(MeanSq(st'), MeanSq(st))
+                   /\ NyqFree => /\ Small(st) => MeanSq(st') = MeanSq(st)
+                                 /\ (last'.op = "advectn") => st' = MapCh(LAMBDA c : AdvectSub(c, last'.v, last'.n)) /\ st' = MapCh(LAMBDA c : AdvectRep(c, last'.v, last'.n)) ]_vars
+\* translation equivariance of every nonlinear term: shifting by one quarter period along each axis commutes with the evaluation
+ShiftAll(U) == [c \in 1..Len(U) |-> [p \in DOMAIN U[c] |-> CMul(NegIPow(VSum(p)), U[c][p])]]
+EquivOK == [][ (len' = len + 1 /\ last'.op = "apply" /\ NyqFree) => NOf(last'.term, ShiftAll(st)) = ShiftAll(st') ]_vars
 =============================================================================
